@@ -347,11 +347,11 @@ def run(tier: str) -> int:
         "a completed syscall / committed sqlite transaction survives the crash (process kill, not power loss)",
         "single-process build in this leg; coordinator/worker crash points are exercised by the parallel leg (C07 engine) when built",
     ]
-    n = 36 if tier == "quick" else 1200
+    n = 16 if tier == "quick" else 1200
     items = [(k, tier) for k in range(n)]
     known = kit.load_known_findings(PROP)
     # determinism self-test: the same scenarios again must give the same plans, faults and verdicts
-    n_det = 3 if tier == "quick" else 24
+    n_det = 2 if tier == "quick" else 24
     results, skipped = kit.run_pool(task, items + [(k, tier) for k in range(n_det)], budget_s=900 if tier == "quick" else 3 * 3600)
     firsts: dict[int, Any] = {}
     dupes = []
